@@ -24,6 +24,8 @@ pub enum Score {
     Binary,
     Shifted,
     Hash64,
+    ConstMax,
+    MaskMax,
 }
 impl Score {
     fn name(&self) -> &'static str {
@@ -38,6 +40,8 @@ impl Score {
             Score::Binary => "binary",
             Score::Shifted => "rank<<32",
             Score::Hash64 => "hash64",
+            Score::ConstMax => "const-usize-max",
+            Score::MaskMax => "homopolymer-masked-usize-max",
         }
     }
     fn eval<P: Kmer>(&self, x: &P) -> usize {
@@ -53,6 +57,12 @@ impl Score {
             Score::Binary => (x.get(0) & 1) as usize,
             // scores far above 2^32: the scanner must compare the full usize
             Score::Shifted => ((n - 1 - x.to_u64() as usize) << 32) | 5,
+            // the extreme value itself: a constant usize::MAX, and usize::MAX as a mask for low-complexity p-mers
+            Score::ConstMax => usize::MAX,
+            Score::MaskMax => {
+                let b0 = x.get(0);
+                if (1..P::k()).all(|i| x.get(i) == b0) { usize::MAX } else { x.to_u64() as usize }
+            }
             Score::Hash64 => {
                 let mut z = (x.to_u64()).wrapping_add(0x9E3779B97F4A7C15);
                 z = (z ^ (z >> 30)).wrapping_mul(0xBF58476D1CE4E5B9);
@@ -65,9 +75,11 @@ impl Score {
 
 fn gen_score(r: &mut Rng, p: usize) -> Score {
     let n = 1usize << (2 * p);
-    match r.below(11) {
+    match r.below(13) {
         9 => Score::Shifted,
         10 => Score::Hash64,
+        11 => Score::ConstMax,
+        12 => Score::MaskMax,
         0 => Score::Rank,
         1 => Score::RevRank,
         2 => Score::Constant,
